@@ -794,6 +794,17 @@ class XsdAttributeGroup(
                     reason = _("%r attribute not allowed for element") % name
                     context.validation_error(validation, self, reason, obj)
                     continue
+            else:
+                if xsd_attribute.use != 'prohibited':
+                    pass
+                elif None in self._attribute_group and \
+                        self._attribute_group[None].is_matching(name):
+                    # A prohibited use is not an attribute use: the wildcard governs
+                    xsd_attribute = self._attribute_group[None]
+                    value = (name, value)
+                else:
+                    reason = _("use of attribute %r is prohibited") % name
+                    context.validation_error(validation, self, reason, obj)
 
             item = xsd_attribute.raw_encode(value, validation, context)
             if result is not None and item is not None and not isinstance(item, EmptyType):
